@@ -183,6 +183,32 @@ Fixpoint src_names (src : string) (t : ty) : list string :=
   | _ => []
   end.
 
+(* member names of struct and interface literals: a non-exported field or method name of a
+   literal belongs to the package it is written in, so the same literal written in another
+   package is a different type (Go spec, type identity) *)
+Fixpoint literal_members (t : ty) : list string :=
+  let l_ := fix go (l : list ty) : list string :=
+    match l with [] => [] | x :: r => (literal_members x ++ go r)%list end in
+  let nl_ := fix go (l : list (string * ty)) : list string :=
+    match l with [] => [] | (_, x) :: r => (literal_members x ++ go r)%list end in
+  match t with
+  | TNamed _ _ targs | TAlias _ _ targs => l_ targs
+  | TPtr t | TSlice t | TArray _ t | TChan _ t => literal_members t
+  | TMap k v => (literal_members k ++ literal_members v)%list
+  | TFunc ps _ rs => (nl_ ps ++ nl_ rs)%list
+  | TStruct fs =>
+    (fix go (l : list (string * bool * ty * string)) : list string :=
+       match l with
+       | [] => []
+       | (n, emb, x, _) :: r => ((if emb then [] else [n]) ++ literal_members x ++ go r)%list
+       end) fs
+  | TIface _ ms es => (map fst ms ++ nl_ ms ++ l_ es)%list
+  | TUnion ts =>
+    (fix go (l : list (bool * ty)) : list string :=
+       match l with [] => [] | (_, x) :: r => (literal_members x ++ go r)%list end) ts
+  | _ => []
+  end.
+
 Definition input_failing (i : input) (c : config) (args : list string) : list string :=
   let looked := map (fun a => assoc (fst (parse_interface_name a)) (in_lookup i)) args in
   let ifaces := flat_map (fun o => match o with Some l => [l] | None => [] end) looked in
@@ -203,7 +229,8 @@ Definition input_failing (i : input) (c : config) (args : list string) : list st
        let mnames := flat_map (fun l => match l with LIface _ _ _ ms => map m_name ms | _ => [] end) ifaces in
        if other && negb (forallb is_exported_name
                            (map (fun a => fst (parse_interface_name a)) args
-                            ++ mnames ++ flat_map (src_names (p_path (in_src i))) tys))
+                            ++ mnames ++ flat_map (src_names (p_path (in_src i))) tys
+                            ++ flat_map literal_members tys))
        then ["unexported_foreign"] else []))%list.
 
 (* the file would import the package it is generated into (defect family D15) *)
